@@ -389,8 +389,8 @@ static int MUL(int a,int b){return a*b;}
 static int DIV(int a,int b){return a/b;}
 static int MOD(int a,int b){return a%b;}
 static int SHL(int a,int b){return a<<b;}
-template<class T> T IFE(int a,int b,T c,T d){return a==b?c:d;}
-template<class T> T IFL(int a,int b,T c,T d){return a<b?c:d;}
+template<class A,class B,class C,class D> auto IFE(A a,B b,C c,D d) -> decltype(true ? c : d) {return a==b?c:d;}
+template<class A,class B,class C,class D> auto IFL(A a,B b,C c,D d) -> decltype(true ? c : d) {return a<b?c:d;}
 static int IFZ(int a,int b,int c){return a==0?b:c;}
 """
 
@@ -868,6 +868,14 @@ def run(chk, replay=None):
                                   (show(t), FMT[f], unhx(v.split()[-1]).decode("latin1")[:300], texts[pid][f][:300]))
             if flags.get("clean") != "1":
                 chk.count("hypothesis_clean_terminal_violated")
+            if flags.get("adm") == "1":
+                chk.count("programs_x_formats_within_theorem_hypotheses")
+            elif str_class(t) == "none" and not any("%%" in tm[2] or tm[2].endswith("%") for tm in terminals_of(t)
+                                                    if tm[1] == "const:s"):
+                broken.append("a generated program with harmless terminals is outside the hypotheses of the "
+                              "theorems (Admissible fails): %s [%s]" % (show(t), FMT[f]))
+            else:
+                chk.count("programs_x_formats_outside_theorem_hypotheses(special strings)")
             if flags["term"] != "1":
                 fail(pid, f, "terminal-not-an-operand", "a terminal's text is not a self-contained operand (termOk fails)")
             elif flags["parse"] != "1" or flags["ok"] != "1" or flags["lex"] != "1":
